@@ -115,6 +115,20 @@ impl<E: FieldElement, H: ElementHasher<BaseField = E::BaseField>> VerifierChanne
             .parse(main_trace_width, aux_trace_width, constraint_frame_width)
             .map_err(|err| VerifierError::ProofDeserializationError(err.to_string()))?;
 
+        // the Lagrange kernel frame must be present exactly when the AIR has a Lagrange kernel
+        // column, and must then have one row for z and one for each z * g^(2^i), i < log(trace_len)
+        let expected_lagrange_frame_rows = if air.context().has_lagrange_kernel_aux_column() {
+            Some(air.trace_length().ilog2() as usize + 1)
+        } else {
+            None
+        };
+        let lagrange_frame_rows = ood_trace_frame.lagrange_kernel_frame().map(|frame| frame.num_rows());
+        if lagrange_frame_rows != expected_lagrange_frame_rows {
+            return Err(VerifierError::ProofDeserializationError(format!(
+                "expected a Lagrange kernel frame of {expected_lagrange_frame_rows:?} rows, but the proof contains {lagrange_frame_rows:?}"
+            )));
+        }
+
         Ok(VerifierChannel {
             // trace queries
             trace_roots,
